@@ -210,10 +210,11 @@ def groupFrom (o : Opts) (acc : List Edge) (ts : List MTrans) : List Edge :=
 def groupEdges (o : Opts) (ts : List MTrans) : List Edge := groupFrom o [] ts
 
 /-- the joined label " | ".join(labels) is the empty string -/
-def Edge.blank (e : Edge) : Bool :=
-  match e.labels with
+def blankLabels : List ELabel → Bool
   | [l] => l.isEmpty
   | _ => false
+
+def Edge.blank (e : Edge) : Bool := blankLabels e.labels
 
 /-- `_add_edges`: the nested variant skips edges whose label is empty (initial pseudo transitions;
 the additional entries it creates for styled edges always have an empty label and are skipped too) -/
@@ -331,9 +332,9 @@ def nestedOKL (parent : Path) : List DNode → Bool
 end
 
 mutual
-/-- global names of all states of a markup tree (pre-order) -/
+/-- global names of all states of a markup tree (pre-order); children exist where the "children" key does -/
 def paths (pre : Path) : MState → List Path
-  | .mk name _ _ _ _ _ _ kids _ => (pre ++ [name]) :: pathsL (pre ++ [name]) kids
+  | .mk name _ _ _ _ _ block kids _ => (pre ++ [name]) :: (if block then pathsL (pre ++ [name]) kids else [])
 def pathsL (pre : Path) : List MState → List Path
   | [] => []
   | s :: r => paths pre s ++ pathsL pre r
@@ -364,7 +365,7 @@ mutual
 def findState (pre p : Path) : MState → Option MState
   | .mk name label final enter exit init block kids trans =>
     if pre ++ [name] = p then some (.mk name label final enter exit init block kids trans)
-    else findStateL (pre ++ [name]) p kids
+    else if block then findStateL (pre ++ [name]) p kids else none
 def findStateL (pre p : Path) : List MState → Option MState
   | [] => none
   | s :: r => match findState pre p s with
